@@ -110,11 +110,17 @@ peg::parser! {
             } /
             // Hex literal
             "0" ['x' | 'X'] s:$(['0'..='9' | 'a'..='f' | 'A'..='F']*) {?
-                i64::from_str_radix(s, 16).or(Err("i64"))
+                // N.B. As with decimal literals, go through u64 so that values above `i64::MAX`
+                // wrap around (e.g., 0xFFFFFFFFFFFFFFFF is -1); a bare `0x` is 0.
+                if s.is_empty() {
+                    Ok(0)
+                } else {
+                    u64::from_str_radix(s, 16).map(|v| v.cast_signed()).or(Err("i64"))
+                }
             } /
             // Octal literal
             s:$("0" ['0'..='8']*) {?
-                i64::from_str_radix(s, 8).or(Err("i64"))
+                u64::from_str_radix(s, 8).map(|v| v.cast_signed()).or(Err("i64"))
             } /
             // Decimal literal
             decimal_literal()
